@@ -4,8 +4,10 @@
   of the entropy script into `V`), `V ← Hash_df(V ‖ custom)` (marker 0xFF = none), `C ← Hash_df(0x00 ‖ V)`, `reseed_counter = 1`, `reseed_limit = 32` blocks —
   equals the hand model's `Prng.initUser .user`: the returned status is 1 EXACTLY when the callback reported a full 32-byte delivery, and whatever was
   delivered (nothing included) the object is a usable generator state whose fields `generate` / `reseed` / `feed` (TJ.Props.C15Gen) accept.
-  Not covered: a NULL callback (the function then installs `tinyjambu_prng_system`, whose OS shim is outside the regenerated program) — C17's NULL-callback
-  clause stays on the hand model + correspondence.
+  NULL callback: `init_user_null_source` and `init_source` — `tinyjambu_prng_init_user(state, NULL, user_data, …)` and `tinyjambu_prng_init(state, …)` leave the SAME
+  description of the object (`InitSysPost`: `tinyjambu_prng_system` installed, user data zero, one delivery of the entropy source hashed into `V`) and return 1
+  exactly when the source reported success.  The OS shim below `tinyjambu_trng_generate` is a primitive of the semantics (one scripted delivery), so what the
+  system source delivers under OS faults stays on the hand model + correspondence (C18).
 -/
 import TJ.Proofs.PrngInit
 import TJ.Props.C15Gen
@@ -23,9 +25,9 @@ theorem init_user_source_is_model (st : St) (bp bi : Nat) (X XI : Array LByte) (
       (ret = 1 ↔ (st.ent.headD ([], 0)).2 = 32) ∧
       st'.ent = script e' ∧ st'.mem.size = st.mem.size ∧ st'.mem[bp]? = some ⟨X', baseP⟩ ∧ X'.size = X.size ∧ Holds X' p' ∧ PCb X' ud ∧ p'.cb = .user ∧ C15.Shape p' ∧
       (∀ j, j ≠ bp → ORel (KeepW (fun _ => False) (fun q => j = bi ∧ ioff ≤ q ∧ q < ioff + custom.length)) st'.mem[j]? st.mem[j]?) := by
-  obtain ⟨k, sig, en, s, hx, hsig, hen, hent', hmsz, ⟨X', g1, g2, g3, g4⟩, g5⟩ := prng_init_user_call_ret 0
+  obtain ⟨k, sig, en, s, hx, hsig, hen, hent', hmsz, ⟨X', g1, g2, g3, g4⟩, g5⟩ := prng_init_user_call_ret userCb userCb ud 0
     #[(0, .pub), (mkPtr bp baseP, .pub), (userCb, .pub), (ud, .pub), (mkPtr bi (basei + ioff), .pub), (custom.length, .pub)] st (.var 1) (.var 2) (.var 3) (.var 4) (.var 5)
-    bp bi X XI baseP basei ioff (mkPtr bi (basei + ioff)) ud custom (by simp [evalE]) (by simp [evalE]) (by simp [evalE]) (by simp [evalE]) (by simp [evalE])
+    bp bi X XI baseP basei ioff (mkPtr bi (basei + ioff)) ud custom (Or.inl ⟨by decide, rfl, rfl⟩) (Or.inl rfl) (by simp [evalE]) (by simp [evalE]) (by simp [evalE]) (by simp [evalE]) (by simp [evalE])
     hP hXs hal hltP hud (Or.inr ⟨hI, hd, rfl, hltI⟩) hne hsz
   subst hsig
   have hzl : (zeros 32).length = 32 := by simp [zeros]
@@ -39,7 +41,7 @@ theorem init_user_source_is_model (st : St) (bp bi : Nat) (X XI : Array LByte) (
       by simp [Prng.initUser, Ent.request, hu, p1], ?_, by rw [hd0]; simp, by rw [hent', hent, script, hu]; rfl, hmsz, g1, g2, g3, g4, rfl, ⟨C15.hashDf_length _ _ _, C15.hashDf_length _ _ _⟩, g5⟩
     unfold callFun
     simp only [List.length_cons, List.length_nil, List.range, List.range.loop, List.map, if_true, Nat.zero_add]
-    rw [hx, hen, hd0]; rfl
+    rw [hx, hen, hd0, cbRet_user]; rfl
   | cons d r =>
     have hd0 : st.ent.headD ([], 0) = (d.written, d.ret) := by rw [hent, script, hu]; rfl
     have hdl : d.written.length ≤ 32 := hs d (by rw [hu]; exact List.mem_cons_self)
@@ -49,11 +51,54 @@ theorem init_user_source_is_model (st : St) (bp bi : Nat) (X XI : Array LByte) (
       by simp [Prng.initUser, Ent.request, hu, p1], ?_, ?_, by rw [hent', hent, script, hu]; rfl, hmsz, g1, g2, g3, g4, rfl, ⟨C15.hashDf_length _ _ _, C15.hashDf_length _ _ _⟩, g5⟩
     · unfold callFun
       simp only [List.length_cons, List.length_nil, List.range, List.range.loop, List.map, if_true, Nat.zero_add]
-      rw [hx, hen, hd0]
+      rw [hx, hen, hd0, cbRet_user]
       by_cases h32 : d.ret = 32
       · simp [h32]; rfl
       · simp [h32]; rfl
     · rw [hd0]
       by_cases h32 : d.ret = 32 <;> simp [h32]
+
+/-- `tinyjambu_prng_init(state, custom, len)` on the regenerated term -/
+theorem init_source (st : St) (bp bi : Nat) (X XI : Array LByte) (baseP basei ioff : Nat) (custom : Bytes)
+    (hP : st.mem[bp]? = some ⟨X, baseP⟩) (hXs : 96 ≤ X.size) (hal : baseP % 8 = 0) (hltP : baseP + X.size < ptrBase)
+    (hI : st.mem[bi]? = some ⟨XI, basei⟩) (hd : BytesV XI ioff custom) (hltI : basei + XI.size < ptrBase) (hne : bi ≠ bp) (hsz : st.mem.size + 5 < 2 ^ 30) :
+    ∃ fuel st', callFun prog fuel idx_tinyjambu_prng_init true [(mkPtr bp baseP, .pub), (mkPtr bi (basei + ioff), .pub), (custom.length, .pub)] st =
+        .ok .normal #[(if (st.ent.headD ([], 0)).2 ≠ 0 then 1 else 0, .pub), (mkPtr bp baseP, .pub), (mkPtr bi (basei + ioff), .pub), (custom.length, .pub)] st' ∧
+      InitSysPost st bp bi X baseP ioff custom st' := by
+  obtain ⟨k, sig, en, s, hx, hsig, hen, hpost⟩ := prng_init_call_ret 0 #[(0, .pub), (mkPtr bp baseP, .pub), (mkPtr bi (basei + ioff), .pub), (custom.length, .pub)] st (.var 1) (.var 2) (.var 3)
+    bp bi X XI baseP basei ioff (mkPtr bi (basei + ioff)) custom (by simp [evalE]) (by simp [evalE]) (by simp [evalE]) hP hXs hal hltP (Or.inr ⟨hI, hd, rfl, hltI⟩) hne hsz
+  subst hsig
+  refine ⟨k, s, ?_, hpost⟩
+  unfold callFun
+  simp only [List.length_cons, List.length_nil, List.range, List.range.loop, List.map, if_true, Nat.zero_add]
+  rw [hx, hen]
+  have hc : cbRet sysCb (st.ent.headD ([], 0)) = if (st.ent.headD ([], 0)).2 ≠ 0 then 32 else 0 := by unfold cbRet; rw [if_neg (by decide)]
+  rw [hc]
+  by_cases h0 : (st.ent.headD ([], 0)).2 = 0
+  · simp [h0]; rfl
+  · simp [h0]; rfl
+
+/-- `tinyjambu_prng_init_user(state, NULL, user_data, custom, len)` on the regenerated term: the same object as `tinyjambu_prng_init` leaves -/
+theorem init_user_null_source (st : St) (bp bi : Nat) (X XI : Array LByte) (baseP basei ioff ud : Nat) (custom : Bytes)
+    (hP : st.mem[bp]? = some ⟨X, baseP⟩) (hXs : 96 ≤ X.size) (hal : baseP % 8 = 0) (hltP : baseP + X.size < ptrBase) (hud : ud < 18446744073709551616)
+    (hI : st.mem[bi]? = some ⟨XI, basei⟩) (hd : BytesV XI ioff custom) (hltI : basei + XI.size < ptrBase) (hne : bi ≠ bp) (hsz : st.mem.size + 5 < 2 ^ 30) :
+    ∃ fuel st', callFun prog fuel idx_tinyjambu_prng_init_user true
+        [(mkPtr bp baseP, .pub), (0, .pub), (ud, .pub), (mkPtr bi (basei + ioff), .pub), (custom.length, .pub)] st =
+        .ok .normal #[(if (st.ent.headD ([], 0)).2 ≠ 0 then 1 else 0, .pub), (mkPtr bp baseP, .pub), (0, .pub), (ud, .pub), (mkPtr bi (basei + ioff), .pub), (custom.length, .pub)] st' ∧
+      InitSysPost st bp bi X baseP ioff custom st' := by
+  obtain ⟨k, sig, en, s, hx, hsig, hen, hent', hmsz, hobj, hoth⟩ := prng_init_user_call_ret 0 sysCb 0 0
+    #[(0, .pub), (mkPtr bp baseP, .pub), (0, .pub), (ud, .pub), (mkPtr bi (basei + ioff), .pub), (custom.length, .pub)] st (.var 1) (.var 2) (.var 3) (.var 4) (.var 5)
+    bp bi X XI baseP basei ioff (mkPtr bi (basei + ioff)) ud custom (Or.inr ⟨rfl, rfl, rfl⟩) (Or.inr rfl) (by simp [evalE]) (by simp [evalE]) (by simp [evalE]) (by simp [evalE]) (by simp [evalE])
+    hP hXs hal hltP hud (Or.inr ⟨hI, hd, rfl, hltI⟩) hne hsz
+  subst hsig
+  refine ⟨k, s, ?_, hent', hmsz, hobj, hoth⟩
+  unfold callFun
+  simp only [List.length_cons, List.length_nil, List.range, List.range.loop, List.map, if_true, Nat.zero_add]
+  rw [hx, hen]
+  have hc : cbRet sysCb (st.ent.headD ([], 0)) = if (st.ent.headD ([], 0)).2 ≠ 0 then 32 else 0 := by unfold cbRet; rw [if_neg (by decide)]
+  rw [hc]
+  by_cases h0 : (st.ent.headD ([], 0)).2 = 0
+  · simp [h0]; rfl
+  · simp [h0]; rfl
 
 end TJ.Props.C17Gen
